@@ -353,6 +353,12 @@ def c14_add_item_to_variables():
     return o == ("returned", "2"), o
 
 
+@demo
+def c16_trans_with_modifier_as_second_argument():
+    o = _outcome(lambda: _write(_BASE + "[Pair]\nA-B : trans(as.zero, sum(as.constant 1, as.zero))\n"))
+    return o[0] == "config-error", o
+
+
 if __name__ == "__main__":
     want = sys.argv[1:]
     nbad = 0
